@@ -1243,3 +1243,232 @@ Proof.
   splits; try apply nv_good; try (vm_compute; reflexivity).
   apply (sync_run nv_ops init); [apply sync_init | vm_compute; reflexivity].
 Qed.
+
+(** * The issues views: one CA ([get_ca_issues]) and all CAs (bulk.rs [cas_issues]) *)
+Lemma failure_of_some o e : failure_of o = Some e <-> o = Some (XFail e).
+Proof.
+  destruct o as [[|e']|]; simpl; split; intros H; try discriminate; congruence.
+Qed.
+
+Lemma failure_of_none o : failure_of o = None <-> forall e, o <> Some (XFail e).
+Proof.
+  destruct o as [[|e']|]; simpl; split; intros H; try discriminate; auto; try (intros e; discriminate).
+  exfalso. apply (H e'). reflexivity.
+Qed.
+
+Lemma in_parent_issues ps p e :
+  In (p, e) (parent_issues ps) <-> exists x, In (p, x) ps /\ p_last x = Some (XFail e).
+Proof.
+  unfold parent_issues. rewrite in_flat_map. split.
+  - intros [[p' x] [Hin H]]. simpl in H. destruct (failure_of (p_last x)) as [e'|] eqn:E; [|destruct H].
+    destruct H as [H|[]]. inv H. exists x. split; auto. apply failure_of_some; auto.
+  - intros [x [Hin H]]. exists (p, x). split; auto. simpl. apply failure_of_some in H. rewrite H. left; reflexivity.
+Qed.
+
+(** the view of one CA lists exactly the failures of its status: the repository issue is the error of the last
+    repository exchange if that failed, the parent issues are exactly the parents whose last exchange failed *)
+Theorem issues_list_exactly_failures s :
+  (forall e, i_repo (issues_of s) = Some e <-> r_last (s_repo s) = Some (XFail e))
+  /\ (forall p e, In (p, e) (i_parents (issues_of s)) <-> exists x, In (p, x) (s_parents s) /\ p_last x = Some (XFail e)).
+Proof.
+  split; [intros e; apply failure_of_some | intros p e; apply in_parent_issues].
+Qed.
+
+(** empty: no repository issue AND no parent issue *)
+Theorem issues_empty_iff i : issues_empty i = true <-> i_repo i = None /\ i_parents i = [].
+Proof.
+  unfold issues_empty. destruct i as [[e|] [|x r]]; simpl; split; intros H; try discriminate; auto;
+    destruct H; discriminate.
+Qed.
+
+Lemma parent_issues_nil ps : parent_issues ps = [] <-> forall p x e, In (p, x) ps -> p_last x <> Some (XFail e).
+Proof.
+  split.
+  - intros H p x e Hin Hl. assert (I : In (p, e) (parent_issues ps)) by (apply in_parent_issues; eauto).
+    rewrite H in I. destruct I.
+  - intros H. destruct (parent_issues ps) as [|[p e] r] eqn:E; auto.
+    assert (I : In (p, e) (parent_issues ps)) by (rewrite E; left; reflexivity).
+    apply in_parent_issues in I as [x [Hin Hl]]. exfalso. eapply H; eauto.
+Qed.
+
+Theorem issues_of_empty_iff s : issues_empty (issues_of s) = true <-> ~ repo_failed s /\ ~ parent_failed s.
+Proof.
+  rewrite issues_empty_iff. unfold issues_of, repo_failed, parent_failed. simpl. rewrite failure_of_none, parent_issues_nil. split.
+  - intros [A B]. split; [intros [e H]; eapply A; eauto | intros [p [x [e [H1 H2]]]]; eapply B; eauto].
+  - intros [A B]. split; [intros e H; apply A; eauto | intros p x e H1 H2; apply B; eauto 6].
+Qed.
+
+Theorem issues_nonempty_iff s : issues_empty (issues_of s) = false <-> has_failure s.
+Proof.
+  unfold has_failure. split.
+  - intros H. unfold issues_empty, issues_of in H. simpl in H.
+    destruct (failure_of (r_last (s_repo s))) as [e|] eqn:E.
+    + left. exists e. apply failure_of_some; auto.
+    + right. simpl in H. destruct (parent_issues (s_parents s)) as [|[p e] r] eqn:P; [discriminate|].
+      assert (I : In (p, e) (parent_issues (s_parents s))) by (rewrite P; left; reflexivity).
+      apply in_parent_issues in I as [x [Hin Hl]]. exists p, x, e. auto.
+  - intros H. destruct (issues_empty (issues_of s)) eqn:E; auto.
+    apply issues_of_empty_iff in E as [A B]. destruct H; contradiction.
+Qed.
+
+(** the text report of one CA says "no issues found" exactly when nothing failed last *)
+Theorem text_no_issues_iff s : says_no_issues (issues_of s) = true <-> ~ has_failure s.
+Proof.
+  unfold says_no_issues. rewrite issues_of_empty_iff. unfold has_failure. tauto.
+Qed.
+
+Lemma in_bulk_with emp l ca i :
+  In (ca, i) (bulk_issues_with emp l) <-> exists s, In (ca, s) l /\ i = issues_of s /\ emp i = false.
+Proof.
+  unfold bulk_issues_with. rewrite in_flat_map. split.
+  - intros [[ca' s] [Hin H]]. simpl in H. destruct (emp (issues_of s)) eqn:E; [destruct H|].
+    destruct H as [H|[]]. inv H. exists s. auto.
+  - intros [s [Hin [-> E]]]. exists (ca, s). split; auto. simpl. rewrite E. left; reflexivity.
+Qed.
+
+(** the all-CAs view agrees with the view of one CA: what it shows for a CA is that CA's issues, and it shows
+    every CA whose issues are not empty *)
+Theorem bulk_agrees_with_single l ca i :
+  In (ca, i) (bulk_issues l) <-> exists s, In (ca, s) l /\ i = issues_of s /\ issues_empty i = false.
+Proof. apply in_bulk_with. Qed.
+
+(** a CA is in the all-CAs view iff its last repository exchange failed or the last exchange with at least one
+    parent failed *)
+Theorem bulk_lists_exactly_failing l ca :
+  In ca (map fst (bulk_issues l)) <-> exists s, In (ca, s) l /\ has_failure s.
+Proof.
+  rewrite in_map_iff. split.
+  - intros [[ca' i] [E Hin]]. simpl in E. subst ca'. apply bulk_agrees_with_single in Hin as [s [H1 [-> H3]]].
+    exists s. split; auto. apply issues_nonempty_iff; auto.
+  - intros [s [H1 H2]]. exists (ca, issues_of s). split; auto. apply bulk_agrees_with_single.
+    exists s. splits; auto. apply issues_nonempty_iff; auto.
+Qed.
+
+(** ... which is the statement [bulk_lists_exactly_failing_with issues_empty]; with [||] in the emptiness test it
+    is false: a CA whose repository exchange failed while its parents are fine is left out *)
+Theorem bulk_lists_exactly_failing_and : bulk_lists_exactly_failing_with issues_empty.
+Proof. intros l ca. apply bulk_lists_exactly_failing. Qed.
+
+Theorem bulk_lists_exactly_failing_or_refuted : ~ bulk_lists_exactly_failing_with issues_empty_or.
+Proof.
+  intros H. destruct (H [(f19i_ca, f19i_repo_only)] f19i_ca) as [_ B].
+  assert (I : In f19i_ca (map fst (bulk_issues_with issues_empty_or [(f19i_ca, f19i_repo_only)]))).
+  { apply B. exists f19i_repo_only. split; [left; reflexivity|]. left. exists 7. reflexivity. }
+  vm_compute in I. exact I.
+Qed.
+
+Example issues_empty_or_refuted :
+  issues_empty_or (issues_of f19i_repo_only) = true /\ issues_empty_or (issues_of f19i_parent_only) = true
+  /\ issues_empty (issues_of f19i_repo_only) = false /\ issues_empty (issues_of f19i_parent_only) = false
+  /\ has_failure f19i_repo_only /\ has_failure f19i_parent_only
+  /\ bulk_issues_with issues_empty_or [(f19i_ca, f19i_repo_only); (q "c", f19i_parent_only)] = []
+  /\ map fst (bulk_issues [(f19i_ca, f19i_repo_only); (q "c", f19i_parent_only)]) = [f19i_ca; q "c"].
+Proof.
+  splits; try (vm_compute; reflexivity).
+  - left. exists 7. reflexivity.
+  - right. exists (q "a"), (mkP (Some (XFail 8)) true 3 [(0, 3)]), 8. split; [left|]; reflexivity.
+Qed.
+
+(** the text report of all CAs says "no issues found" exactly when no CA has a failure *)
+Theorem bulk_text_no_issues_iff l :
+  bulk_says_no_issues (bulk_issues l) = true <-> forall ca s, In (ca, s) l -> ~ has_failure s.
+Proof.
+  unfold bulk_says_no_issues. split.
+  - intros H ca s Hin Hf. assert (I : In ca (map fst (bulk_issues l))) by (apply bulk_lists_exactly_failing; eauto).
+    destruct (bulk_issues l); [destruct I | discriminate].
+  - intros H. destruct (bulk_issues l) as [|[ca i] r] eqn:E; auto.
+    assert (I : In ca (map fst (bulk_issues l))) by (rewrite E; left; reflexivity).
+    apply bulk_lists_exactly_failing in I as [s [H1 H2]]. exfalso. eapply H; eauto.
+Qed.
+
+(** The same on a state of the status store, for the CAs that exist. *)
+Lemma in_statuses st cas ca s : In (ca, s) (statuses st cas) <-> In ca cas /\ s = ca_view st ca.
+Proof.
+  unfold statuses. rewrite in_map_iff. split.
+  - intros [ca' [E Hin]]. inv E. auto.
+  - intros [Hin ->]. exists ca. auto.
+Qed.
+
+Theorem bulk_view_lists_exactly_failing st cas ca :
+  In ca (map fst (bulk_view st cas)) <-> In ca cas /\ has_failure (ca_view st ca).
+Proof.
+  unfold bulk_view. rewrite bulk_lists_exactly_failing. split.
+  - intros [s [H1 H2]]. apply in_statuses in H1 as [H1 ->]. auto.
+  - intros [H1 H2]. exists (ca_view st ca). split; auto. apply in_statuses. auto.
+Qed.
+
+Theorem bulk_view_agrees_with_single st cas ca i :
+  In (ca, i) (bulk_view st cas) <-> In ca cas /\ i = issues_view st ca /\ issues_empty i = false.
+Proof.
+  unfold bulk_view, issues_view. rewrite bulk_agrees_with_single. split.
+  - intros [s [H1 [H2 H3]]]. apply in_statuses in H1 as [H1 ->]. auto.
+  - intros [H1 [H2 H3]]. exists (ca_view st ca). splits; auto. apply in_statuses. auto.
+Qed.
+
+Lemma aget_some_in {V} k (m : list (str * V)) v : aget k m = Some v -> In (k, v) m.
+Proof.
+  induction m as [|[k' v'] r IH]; simpl; [discriminate|]. destruct (str_eqb k k') eqn:E.
+  - intros H. inv H. apply str_eqb_eq in E. subst. auto.
+  - auto.
+Qed.
+
+(** In histories: a CA whose most recent repository exchange failed, or whose most recent exchange with some
+    parent failed, is listed in the all-CAs view and its text report does not say "no issues found" - whatever
+    else happened since. *)
+Theorem bulk_shows_last_failed_repo os1 os2 st1 st2 st3 ca w lr dr e cas :
+  run init os1 = Some st1 ->
+  step st1 (ORepoSync ca w lr dr) = Some st2 ->
+  run st2 os2 = Some st3 ->
+  forallb (fun o => negb (touches_repo ca o)) os2 = true ->
+  good ca ->
+  snd (repo_sync st1 ca w lr dr) = XFail e ->
+  In ca cas ->
+  In ca (map fst (bulk_view st3 cas)) /\ i_repo (issues_view st3 ca) = Some e
+  /\ says_no_issues (issues_view st3 ca) = false.
+Proof.
+  intros H1 H2 H3 Ht Hca Hr Hin.
+  pose proof (repo_failure_iff_last_failed _ _ _ _ _ _ _ _ _ H1 H2 H3 Ht Hca) as L. rewrite Hr in L.
+  assert (F : has_failure (ca_view st3 ca)) by (left; exists e; exact L).
+  splits.
+  - apply bulk_view_lists_exactly_failing. auto.
+  - unfold issues_view, issues_of. simpl. apply failure_of_some. exact L.
+  - apply issues_nonempty_iff. exact F.
+Qed.
+
+Theorem bulk_shows_last_failed_parent os1 os2 st1 st2 st3 ca p pc ch r e cas :
+  run init os1 = Some st1 ->
+  step st1 (OParentSync ca p pc ch r) = Some st2 ->
+  run st2 os2 = Some st3 ->
+  forallb (fun o => negb (touches_parent ca p o)) os2 = true ->
+  good ca -> good p ->
+  exchange_result r = Some (XFail e) ->
+  In ca cas ->
+  In ca (map fst (bulk_view st3 cas)) /\ In (p, e) (i_parents (issues_view st3 ca))
+  /\ says_no_issues (issues_view st3 ca) = false.
+Proof.
+  intros H1 H2 H3 Ht Hca Hp Hx Hin.
+  destruct (failure_iff_last_failed _ _ _ _ _ _ _ _ _ _ _ H1 H2 H3 Ht Hca Hp Hx) as [_ L].
+  destruct (proj2 (L e) eq_refl) as [ps [V P]]. apply aget_some_in in V.
+  assert (F : has_failure (ca_view st3 ca)) by (right; exists p, ps, e; auto).
+  splits.
+  - apply bulk_view_lists_exactly_failing. auto.
+  - unfold issues_view. apply issues_list_exactly_failures. eauto.
+  - apply issues_nonempty_iff. exact F.
+Qed.
+
+(** non-vacuity: [nv_state], then the publisher of b_2 is gone (repository exchange refused) while the parent
+    stays fine; later the child is removed at the parent *)
+Example bulk_shows_last_failed_nonvacuous :
+  let os2 := [OParentSync (q "c") nv_a nv_a (q "c") (RList MOk [(0, 1)] true); ORestart] in
+  exists st2 st3,
+    step nv_state (ORepoSync nv_b [] (RErr 12) XOk) = Some st2
+    /\ run st2 os2 = Some st3
+    /\ forallb (fun o => negb (touches_repo nv_b o)) os2 = true
+    /\ snd (repo_sync nv_state nv_b [] (RErr 12) XOk) = XFail 12
+    /\ map fst (bulk_view st3 [nv_a; nv_b; q "c"]) = [nv_b]
+    /\ issues_view st3 nv_b = mkI (Some 12) []
+    /\ issues_view st3 (q "c") = mkI None []
+    /\ bulk_view nv_state [nv_a; nv_b; q "c"] = []
+    /\ map fst (bulk_view (fst (parent_sync st3 nv_b (q "up-a") nv_a (q "kid_b") (RList (MRefused 11) [] true))) [nv_a; nv_b; q "c"]) = [nv_b]
+    /\ issues_view (fst (parent_sync nv_state nv_b (q "up-a") nv_a (q "kid_b") (RList (MRefused 11) [] true))) nv_b = mkI None [(q "up-a", 11)].
+Proof. vm_compute. eexists. eexists. splits; reflexivity. Qed.
